@@ -249,6 +249,13 @@ def check(fx, rep, tier):
                         c_ok = True
                     else:
                         why = "the counter is the first tuple element of the loop pattern but the iterator is not `.enumerate()`d at the outermost level"
+                # `for count in 0..n`: the loop variable of a unit-step range counts the iterations itself
+                if not c_ok and pat.get("p") == "Bind" and pat.get("local") == cl:
+                    itx = F.strip(it)
+                    if itx.get("k") == "Struct" and str(itx.get("adt", "")).endswith(("ops::Range", "ops::RangeInclusive", "ops::RangeFrom")):
+                        c_ok = True
+                    else:
+                        why = "the counter is the loop variable but the iterator is not a plain unit-step range"
             if not c_ok:
                 incs = increments_of(loop, cl)
                 unit = [x for x in incs if x[0].get("k") == "AssignOp" and x[0]["op"] in ("Add", "AddAssign") and T.term(x[0]["r"], T.Env()) == ("lit", "1")]
